@@ -221,6 +221,7 @@ func runC17(c *Ctx) {
 	checkPopulateWalk(c, "populate.walk")
 	checkROErrorCodes(c, "plumbing.not-found")
 	checkGenericErrorDiscipline(c, "pkg/fuse")
+	checkReadAtOffsetWithinLeaf(c, "plumbing.read.offset-within-leaf")
 }
 
 // guardedUpdateFails: `if _, update := X.Insert(k, v); update { return <non-nil error> }`
